@@ -642,6 +642,8 @@ enum Op {
     Undelegate { parent: usize, child: usize },
     AddMember { a: usize, b: Nd },
     DelMember { a: usize, b: Nd },
+    /// calls that only check a level: 0 encrypt_for+decrypt_as, 1 get_expiration, 2 clear_expiration (Admin), 3 changelog, 4 diff_versions(1,1)
+    Probe { req: usize, sec: usize, kind: u8 },
     GetVersion { req: usize, sec: usize, ver: u32 },
     /// `current_version` (via_list: `list_versions().len()`)
     Versions { req: usize, sec: usize, via_list: bool },
@@ -938,6 +940,32 @@ fn exec(w: &mut World, m: &mut Model, rep: &mut Report, r: &mut Rng, stream: &st
                     let _ = finish!("addmember", line, "ok".to_string(), t0);
                 }
                 Err(e) => rep.note(&format!("create_edge MEMBER failed: {e}")),
+            }
+        }
+        Op::Probe { req, sec, kind } => {
+            let t0 = w.clear_time();
+            let (rq, sn) = (w.idents[*req].clone(), w.sec_names[*sec].clone());
+            let (name, need, must_exist, out): (&str, u8, u8, Result<(), VaultError>) = match kind {
+                0 => {
+                    let payload = b"transit payload \x00\x01".to_vec();
+                    let o = w.vault.encrypt_for(&rq, &sn, &payload).and_then(|sealed| w.vault.decrypt_as(&rq, &sn, &sealed)).map(|back| {
+                        if back != payload {
+                            rep.note("encrypt_for / decrypt_as round trip returned different bytes");
+                        }
+                    });
+                    ("encrypt_for", 1, 0, o)
+                }
+                1 => ("get_expiration", 1, 1, w.vault.get_expiration(&rq, &sn).map(|_| ())),
+                2 => ("clear_expiration", 3, 1, w.vault.clear_expiration(&rq, &sn)),
+                3 => ("changelog", 1, 0, w.vault.changelog(&rq, &sn).map(|_| ())),
+                _ => ("diff_versions", 1, 1, w.vault.diff_versions(&rq, &sn, 1, 1).map(|_| ())),
+            };
+            let imp = res(w, out.map(|()| "ok".to_string()));
+            let line = format!("probe {t0} {req} {} {need} {must_exist}", w.sec_ids[*sec]);
+            rep.hit(&format!("probe.{name}"));
+            let imp = finish!("probe", line.clone(), imp, t0);
+            if imp == "ok" {
+                w.check_access(rep, name, *req, *sec, need, t0, &line);
             }
         }
         Op::GetVersion { req, sec, ver } => {
@@ -1294,10 +1322,11 @@ fn gen_op(w: &World, r: &mut Rng) -> Op {
                 _ => (requester(r), sec(r)),
             };
             let ver = *r.pick(&[0u32, 1, 1, 2, 2, 3, 4, 7]);
-            match r.below(5) {
+            match r.below(7) {
                 0 | 1 => Op::GetVersion { req: rq, sec: sx, ver },
                 2 => Op::Versions { req: rq, sec: sx, via_list: r.chance(1, 2) },
-                _ => Op::Rollback { req: rq, sec: sx, ver },
+                3 | 4 => Op::Rollback { req: rq, sec: sx, ver },
+                _ => Op::Probe { req: rq, sec: sx, kind: r.below(5) as u8 },
             }
         }
         22..=29 => Op::List { req: requester(r), pat: r.below(4) as u8, arg: sec(r), via: *r.pick(&[0u8, 0, 1, 2]) },
@@ -1702,6 +1731,23 @@ fn directed(m: &mut Model, rep: &mut Report, root: &Rng, seen: &mut BTreeSet<Str
                 Op::Rollback { req: 0, sec: 0, ver: 9 },
                 Op::Rollback { req: 0, sec: 0, ver: 1 },
                 Op::Get { req: 1, sec: 0 },
+                Op::Probe { req: 1, sec: 0, kind: 0 },
+                Op::Probe { req: 1, sec: 0, kind: 1 },
+                Op::Probe { req: 1, sec: 0, kind: 2 },
+                Op::Probe { req: 1, sec: 0, kind: 3 },
+                Op::Probe { req: 1, sec: 0, kind: 4 },
+                Op::Probe { req: 2, sec: 0, kind: 0 },
+                Op::Probe { req: 2, sec: 0, kind: 1 },
+                Op::Probe { req: 2, sec: 0, kind: 2 },
+                Op::Probe { req: 2, sec: 0, kind: 3 },
+                Op::Probe { req: 2, sec: 0, kind: 4 },
+                Op::Probe { req: 0, sec: 2, kind: 0 },
+                Op::Probe { req: 0, sec: 2, kind: 1 },
+                Op::Probe { req: 0, sec: 2, kind: 2 },
+                Op::Probe { req: 0, sec: 2, kind: 3 },
+                Op::Probe { req: 0, sec: 2, kind: 4 },
+                Op::Grant { req: 0, ent: 3, sec: 0, level: 3, plain_api: true },
+                Op::Probe { req: 3, sec: 0, kind: 2 },
             ],
         ),
         (
@@ -1945,7 +1991,7 @@ fn main() {
         "rotate.ok", "rotate.err_denied", "rotate.err_insufficient", "rotate.err_crypto", "delete.ok", "delete.err_denied", "delete.err_insufficient", "delete.err_not_found",
         "grant.ok", "grant.err_denied", "grant.err_insufficient", "grant.err_not_found", "grantttl.ok", "grantttl.err_denied", "revoke.ok", "revoke.err_denied",
         "revoke.err_insufficient", "delegate.ok", "delegate.err_denied", "delegate.err_insufficient", "delegate.err_graph", "undelegate.ok", "undelegate.err_not_found",
-        "list.ok", "list.via0", "list.via1", "list.via2", "getver.ok", "getver.err_denied", "getver.err_not_found", "vercount.ok", "vercount.err_denied", "rollback.ok", "rollback.err_denied",
+        "list.ok", "list.via0", "list.via1", "list.via2", "probe.ok", "probe.err_denied", "probe.err_insufficient", "probe.err_not_found", "probe.encrypt_for", "probe.get_expiration", "probe.clear_expiration", "probe.changelog", "probe.diff_versions", "getver.ok", "getver.err_denied", "getver.err_not_found", "vercount.ok", "vercount.err_denied", "rollback.ok", "rollback.err_denied",
         "rollback.err_insufficient", "rollback.err_not_found", "rollback.err_too_large", "batchget.ok", "batchget.entry_ok", "batchset.ok", "batchset.entry_ok", "batchset.via_batch_set", "wrap.ok", "wrap.err_denied", "unwrap.ok",
         "unwrap.err_not_found", "undelegatec.ok", "undelegatec.records_revoked", "reopen.ok", "addmember.ok", "delmember.ok", "rawedge.ok", "rawedge.undirected", "rawedge.directed", "rawedge.sig_class0", "rawedge.sig_class1",
         "rawedge.sig_class2", "rawedge.sig_class3", "rawedge.sig_class4", "rawedge.type.OWNS", "rawedge.type.MEMBER_OF", "rawedge.type.VAULT_ACCESSX_ADMIN", "rawedge.type.VAULT_ACCESS", "rawedge.type.VAULT_ACCESS_FOO", "perm.answer.none", "perm.answer.1", "perm.answer.2", "perm.answer.3",
